@@ -191,6 +191,8 @@ def pipeline_model_diff(d, tag, inst, res, impl):
     toks = ["%d" % len(tours)] + ["%d %d %s" % (t, len(n), " ".join(n)) for (t, n) in tours]
     for (_, blk) in blocks:
         toks += blk
+    if res["js"] is not None and "convert" not in res["outchk"]:
+        toks += out_tokens(inst, res["perm"], res["js"])
     mpath = os.path.join(d, "%s.pipe" % tag)
     with open(mpath, "w") as f:
         f.write(" ".join(str(x) for x in instgen.encode(inst, res["perm"])) + "\n" + "\n".join(toks) + "\n")
@@ -202,6 +204,8 @@ def pipeline_model_diff(d, tag, inst, res, impl):
     for l in model:
         if "NOTFOUND" in l or "MODELFAIL" in l or "NEIGHPANIC" in l or "MISSING" in l.split()[-1:]:
             return "model: " + l
+        if l.startswith("RENDER") and l.split()[1] != "ok":
+            return "returned JSON is not the rendering of the final schedule (Render.v): " + l
         if l.startswith("TRANSVALID") and l.split()[2] != "ok":
             return "optimised transitions violate the bookkeeping invariant w.r.t. the search result: " + l
     mblocks = sched_blocks(model)
